@@ -483,5 +483,110 @@ class RunSplit(common.Suite):
         return f"{case['driver']}:{case['entry']}:{z}:{sg}:{'wrapped' if case['wrap'] else 'plain'}"
 
 
+class NoLoggerSplit(common.Suite):
+    """the same schedule / split clauses for simulations WITHOUT a log file (only trajectory/recording observers):
+    the step-0 block must run once however many zero-length runs come first"""
+
+    name = "run-split-no-logger"
+
+    def cases(self, rng, tier):
+        out = []
+        n = 90 if tier == "quick" else 900
+        for _ in range(n):
+            d = rng.choice(DRIVERS)
+            segs = [rng.randint(0, 3) for _ in range(rng.randint(1, 4))]
+            if rng.random() < 0.6:
+                segs = [0] * rng.randint(1, 2) + segs
+            entry = rng.choice(["run", "irun"] + (["srun"] if d != "fb" else []))
+            out.append({"driver": d, "entry": entry, "segs": segs, "seed": rng.randrange(1, 2**31),
+                        "trajint": rng.choice([1, 2, 3, -1, -2]), "recint": [rng.choice(IVALS + [1, 2]) for _ in range(rng.randint(1, 2))]})
+        return out
+
+    def build(self, case):
+        E = env()
+        np = E["np"]
+        atoms = E["bulk"]("Cu", cubic=True)
+        atoms.calc = E["Harm"]()
+        sink = []
+        traj = io.StringIO()
+        simref = []
+        getsim = lambda: simref[0]  # noqa: E731
+        tr = E["RTraj"](atoms, traj, interval=case["trajint"], mode="a")
+        tr.sink, tr.pos, tr.sim = sink, 0, getsim
+        kw = dict(trajectory=tr, seed=case["seed"])
+        d = case["driver"]
+        if d == "can":
+            sim = E["Can"](atoms, temperature=3000.0, default_displacement_move=E["DisplacementMove"](np.arange(len(atoms))), **kw)
+        elif d == "gc":
+            sim = E["GC"](atoms, E["Atoms"]("Cu"), temperature=5000.0, chemical_potential=0.0, max_cycles=2,
+                          number_of_exchange_particles=len(atoms),
+                          default_exchange_move=E["ExchangeMove"](np.arange(len(atoms))),
+                          default_displacement_move=E["DisplacementMove"](np.arange(len(atoms))), **kw)
+        else:
+            sim = E["FB"](atoms, delta=0.1, temperature=300.0, **kw)
+        sim._executed = []
+        simref.append(sim)
+        ivs = [case["trajint"]]
+        for n, iv in enumerate(case["recint"]):
+            sim.file_manager.attach_observer(f"rec{n}", E["Rec"](iv, sink, len(ivs), sim))
+            ivs.append(iv)
+        return sim, traj, sink, ivs
+
+    def observe(self, case, segs, entry):
+        sim, traj, sink, ivs = self.build(case)
+        for n in segs:
+            drive(sim, entry, n, case["driver"] != "fb")
+        at = sim.atoms
+        return {"step_count": int(sim.step_count), "executed": list(sim._executed), "trace": [list(e) for e in sink],
+                "intervals": ivs, "traj": traj.getvalue(),
+                "atoms": digest(at.get_positions().tobytes() + at.numbers.tobytes() + at.cell.array.tobytes())}
+
+    def real(self, case):
+        obs = self.observe(case, case["segs"], case["entry"])
+        obs["unsplit"] = self.observe(case, [total(case)], "run")
+        return obs
+
+    def model_lines(self, case):
+        ivs = [case["trajint"], *case["recint"]]
+        segs = ",".join(map(str, case["segs"])) or "-"
+        return [f"runloop fixed {'eager' if case['driver'] == 'fb' else 'lazy'} {case['entry']} - {','.join(map(str, ivs))} {segs}"]
+
+    def model_obs(self, case, outs):
+        w = outs[0].split()
+        if w[0] != "ok":
+            return {"model": outs[0]}
+        tr = []
+        if w[5] != "-":
+            for t in w[5].split(","):
+                p = t.split(":")
+                tr.append([int(p[0]), int(p[1]), int(p[2])])
+        return {"step_count": int(w[1]), "executed": [] if w[4] == "-" else [int(x) for x in w[4].split(",")], "trace": tr}
+
+    def oracle(self, case, obs):
+        if "exception" in obs:
+            return [("c15:unexpected-exception:" + obs["exception"], obs["message"])]
+        out = []
+        N = total(case)
+        if obs["executed"] != list(range(N)) or obs["step_count"] != N:
+            out.append((f"entry:{case['entry']}:steps", f"executed {obs['executed']} for {case['segs']}"))
+        calls = {}
+        for e in obs["trace"]:
+            calls.setdefault(e[0], []).append(e[1])
+        for pos, iv in enumerate(obs["intervals"]):
+            if calls.get(pos, []) != schedule(iv, N):
+                lead = leading_zero(case)
+                out.append(("split:step0-repeated:no-logger" if lead and calls.get(pos, [])[:2] == [0, 0] else
+                            f"schedule:{'pos' if iv > 0 else 'neg'}:no-logger",
+                            f"observer {pos} interval {iv}: called at {calls.get(pos, [])}, expected {schedule(iv, N)} ({case['segs']})"))
+        un = obs["unsplit"]
+        for k in ("step_count", "atoms", "executed", "traj", "trace"):
+            if obs[k] != un[k]:
+                out.append((f"split:differs:{k}:no-logger", f"{case['segs']} vs unsplit run({N})"))
+        return out
+
+    def classify(self, case, obs):
+        return f"{case['driver']}:{case['entry']}:{'zero@0' if leading_zero(case) else 'other'}"
+
+
 def suites(tier):
-    return [RunSplit()]
+    return [RunSplit(), NoLoggerSplit()]
